@@ -154,6 +154,34 @@ pub fn plan(prop: &str) -> Option<Plan> {
             vec!["c14.frozen-run-completed"],
             "a run is non-trivial if one hash was frozen and another one had HTLCs in flight",
         ),
+        "C15" => Plan { quick_runs: 400_000, thorough_runs: 6_000_000, ..p(
+            "C15",
+            vec![("e2wait", 1, false)],
+            vec![("e2wait-hostile", 1, false)],
+            vec!["c15.wait-returned"],
+            "a run is non-trivial if wait_payment returned (real PayPaymentProvider on the simulated RPC seam, parts resolving between its queries)",
+        )},
+        "C16" => Plan { quick_runs: 400_000, thorough_runs: 6_000_000, ..p(
+            "C16",
+            vec![("e2pay", 1, false)],
+            vec![],
+            vec!["c16.pay-returned"],
+            "a run is non-trivial if the pay wrapper returned (real PayPaymentProvider::pay against the pay-command model)",
+        )},
+        "C19" => Plan { quick_runs: 120_000, thorough_runs: 1_500_000, ..p(
+            "C19",
+            vec![("config", 1, false)],
+            vec![],
+            vec!["c19.configuration-evaluated"],
+            "a run is non-trivial if an explicit option assignment was sent in init and the start-up decision compared with the reference validator",
+        )},
+        "C20" => Plan { quick_runs: 200_000, thorough_runs: 3_000_000, ..p(
+            "C20",
+            vec![("e2watch", 1, false)],
+            vec![],
+            vec!["c20.height-observed"],
+            "a run is non-trivial if the height of the real BlockWatcher was read back after a height event",
+        )},
         "C17" => p(
             "C17",
             vec![("wire", 4, false), ("inputs", 1, false), ("faults", 1, false)],
@@ -198,8 +226,13 @@ pub fn run_random(seed: u64, profile: &str, probe: bool, dump: bool) -> Sim {
     if dump {
         sim.event_dump = Some(Vec::new());
     }
-    let mut sched = RandomSched::new(mix(seed, 0x5C4ED), probe);
-    sim.run(&mut sched);
+    if sim.w.cfg.mode == "watcher" {
+        let mut sched = super::sched::WatcherSched::new(mix(seed, 0x5C4ED));
+        sim.run(&mut sched);
+    } else {
+        let mut sched = RandomSched::new(mix(seed, 0x5C4ED), probe);
+        sim.run(&mut sched);
+    }
     sim
 }
 
